@@ -658,7 +658,7 @@ class PropGen:
         for pos, sees in order:
             w = (widths or {}).get(pos)
             if w is None:
-                w = 1 if r.random() < 0.6 else r.randrange(2, self.max_width + 1)
+                w = 1 if (r.random() < 0.6 or self.max_width < 2) else r.randrange(2, self.max_width + 1)
             visible = {}
             for p in sees:
                 visible.update(bound_aliases.get(p, {}))
